@@ -12,10 +12,11 @@ from ..runner import Outcome, fail
 ID = 'C09'
 LEVEL = 'exploration'
 RULE = ('Case = (small multi-chunk tree, settings, N in 1..8, operation in {snapshot+restore, two snapshots at once, restore '
-        'twice on one Repository}, completion schedule, delay schedule, optional permanent failure of the k-th backend call). '
+        'twice on one Repository, restore loading 12..40 snapshots through a cold cache directory; optionally a slow backend}, completion schedule, delay schedule, optional permanent failure of the k-th backend call). '
         'All backend calls of the command park in a harness-owned backend and are released one at a time in the order given '
-        'by the completion schedule (any pending call can complete first); lock acquire/release, queue put/get and executor '
-        'task boundaries inside replicat.repository sleep according to the delay schedule (sys.setswitchinterval lowered). '
+        'by the completion schedule (any pending call can complete first); lock acquire/release, queue put/get, executor task '
+        'boundaries and the cache directory\'s is_dir/exists/mkdir/write calls '
+        'inside replicat.repository sleep according to the delay schedule (sys.setswitchinterval lowered). '
         'Oracle: the command ends without error with the model\'s result (independent reader + restored bytes/mtimes), '
         'calls in flight never exceed N, all N slots are back after success and after an injected failure (once the loop has '
         'drained), and nothing hangs (hang = nothing parked and nothing finished for 30 s; 60 s for the threaded flavour). Non-trivial: >=2 calls were '
@@ -57,10 +58,20 @@ def cases(draw):
             ops = draw(st.sampled_from([['download_stream'], ['download_stream'], ['download'], ['download_stream', 'download']]))
         fail_ = {'phase': phase, 'call': k, 'ops': ops}
         n = draw(st.sampled_from([1, 1, 1, 2, 3, 8]))
-    return {'settings': s, 'n': n, 'op': draw(st.sampled_from(['roundtrip', 'roundtrip', 'two-snapshots', 'restore-twice'])),
+    op = draw(st.sampled_from(['roundtrip', 'roundtrip', 'roundtrip', 'two-snapshots', 'restore-twice', 'cached-restore-many']))
+    latency = 0
+    if fail_ is None and op == 'roundtrip' and draw(st.integers(0, 2)) == 0:
+        # a backend that takes its time: the chunk queue between producer and upload workers fills up
+        latency = draw(st.sampled_from([15, 20]))
+        n = draw(st.sampled_from([1, 1, 2]))
+        files.append({'path': 'd1/slow', 'content': [['r', 11, draw(st.integers(14, 24)) * mx + 1]], 'mtime_ns': 10 ** 18 + 55})
+    if op == 'cached-restore-many':
+        n = draw(st.sampled_from([2, 4, 8]))
+        fail_ = None
+    return {'settings': s, 'n': n, 'op': op, 'latency': latency, 'many': draw(st.integers(12, 40)),
             'files': files, 'schedule': draw(st.lists(st.integers(0, 7), min_size=1, max_size=20)),
             'delays': draw(st.lists(st.sampled_from([0, 0, 0, 0, 1, 2, 5]), min_size=1, max_size=24)), 'fail': fail_,
-            'flavour': draw(st.sampled_from(['controlled', 'controlled', 'sync']))}
+            'flavour': 'sync' if latency or op == 'cached-restore-many' else draw(st.sampled_from(['controlled', 'controlled', 'sync']))}
 
 
 def strategy(tier):
@@ -74,9 +85,15 @@ def shard_setup(tier):
 def run_case(case):
     control.install()
     work = env.fresh_dir('c09')
+    t0 = time.time()
     try:
         return _run(case, work)
     finally:
+        if os.environ.get('VK_SLOW') and time.time() - t0 > float(os.environ['VK_SLOW']):
+            import json as _json
+            import sys as _sys
+            print(f'SLOW {time.time() - t0:.1f}s', _json.dumps({k: case[k] for k in ('op', 'flavour', 'n', 'latency', 'fail', 'many') if k in case}),
+                  file=_sys.stderr, flush=True)
         control.Delays.deactivate()
         env.shutdown_executors()
         env.rmtree(work)
@@ -98,6 +115,10 @@ def _run(case, work):
     model = {os.path.join(real, f['path']): (world.content(f['content']), f['mtime_ns']) for f in case['files']}
     gate = control.Gate()
     nontrivial_flags = {'nonfifo': False, 'delays': False}
+    if case.get('latency'):
+        lat = case['latency'] / 1000.0
+        store.delay = lambda op_, name_: lat if op_ in ('upload_stream', 'exists') else 0
+        classes.append('slow-backend')
     fail_ = case['fail']
 
     def backend():
@@ -226,7 +247,39 @@ def _run(case, work):
                         f'({"failed" if injected else "succeeded"})', phase=label, injected=injected)
         return None
 
+    async def many_main():
+        # many (empty) snapshots, then one restore that loads them all through a cold cache directory with N loader threads
+        repo = world.repository(world.backend_for('mem', store), n)
+        await repo.unlock(password=cred.password, key=cred.key)
+        empty = os.path.join(work, 'empty')
+        os.makedirs(empty, exist_ok=True)
+        for _ in range(case.get('many', 24)):
+            await repo.snapshot(paths=[Path(empty)])
+        cache = os.path.join(work, 'cold-cache')
+        r2 = world.repository(world.backend_for('mem', store), n, cache)
+        await r2.unlock(password=cred.password, key=cred.key)
+        control.Delays.activate(case['delays'])
+        try:
+            res = await asyncio.wait_for(r2.restore(path=Path(work, 'tmany')), 60)
+        except asyncio.TimeoutError:
+            return fail('hang', f'restore of {case.get("many")} snapshots through a cold cache did not end within 60 s')
+        except Exception as e:
+            return fail('spurious-error', f'restore loading {case.get("many")} snapshots through a cold cache directory raised '
+                        f'{type(e).__name__}: {str(e)[:200]} under a legal schedule', phase='restore', exception=type(e).__name__)
+        finally:
+            control.Delays.deactivate()
+            finish_flags()
+        await control._real_sleep(0.05)
+        if r2._slots.qsize() != n:
+            return fail('slots', f'{r2._slots.qsize()} of {n} slots available after restore')
+        cached = sum(len(fs) for _, _, fs in os.walk(cache))
+        if cached != case.get('many', 24):
+            return fail('result', f'{cached} cache entries after loading {case.get("many")} snapshots')
+        return None
+
     async def main():
+        if case['op'] == 'cached-restore-many':
+            return await many_main()
         (results, slots, repos, hang), armed = await snapshot_phase(two=case['op'] == 'two-snapshots')
         finish_flags()
         f = judge('snapshot', results, slots, hang, armed, store.max_in_flight)
